@@ -81,6 +81,9 @@ class C22(core.Check):
         return [
             ("rx", False, [[(b"bZZZ" + b"A" * 40, 1)]], "unknown code"),
             ("rx", False, [[(b"bAAA" + b"!!!!" + m.encode() + b"body", 1)]], "bad b64 digit"),
+            ("rx", False, [[(b"bAAA" + "A\u00e9A".encode() + m.encode() + b"body", 1)]], "neck holds a valid 2-byte utf-8 sequence"),
+            ("rx", False, [[(b"bAAB" + "\u4e2dA".encode() + m.encode() + b"body", 1), (b"bAAA" + "\U0001F600".encode() + m.encode() + b"body", 2)]], "3- and 4-byte sequences in the neck"),
+            ("rx", True, [[(b"bAAC" + "AA\u00e9".encode() + m.encode() + A.key(0)["vid"].encode() + b"body" + b"0B" + b"A" * 86, 1)]], "neck utf-8, signed code"),
             ("rx", False, [[(b"b\xff\xfe\xfd" + b"A" * 40, 1)]], "non utf-8 code"),
             ("rx", False, [[(b"bAABAAAB" + b"\xff" * 24 + b"x", 1)]], "non utf-8 mid"),
             ("rx", False, [[(b"bAAIAAAA" + m.encode(), 1)]], "ack"),
@@ -130,8 +133,26 @@ class C22(core.Check):
                         b = [(gs[0], 1), (gs[1], 1)]
                         b[k] = (bytes(m), 1)
                         cs.append(("rx", au, [b], "mut1"))
+        # header fields overwritten with VALID multi-byte UTF-8 (2-, 3-, 4-byte sequences): the field still decodes, to characters no table knows
+        seqs = ["é".encode(), "中".encode(), "😀".encode()]
+        for gs, au in ((sg, True), (ug, False), (sb, True)):
+            for k in (0, 1):
+                g = gs[k]
+                head = min(len(g), 4 + 4 + 24 + (44 if (k == 0 and au) else 0))
+                spots = list(range(0, head)) + ([] if not au else list(range(len(g) - 88, len(g)))) if gs is not sb else list(range(0, min(len(g), 60)))
+                for pos in spots:
+                    if not (pos < 12 or tier == "thorough" or pos % 5 == 0):      # code and neck at every offset, the long fields sampled in quick
+                        continue
+                    for q_ in seqs:
+                        if pos + len(q_) <= len(g):
+                            m = bytearray(g); m[pos:pos + len(q_)] = q_
+                            b = [(gs[0], 1), (gs[1], 1)]
+                            b[k] = (bytes(m), 1)
+                            cs.append(("rx", au, [b], "utf8-overwrite"))
         return cs, ("every truncation and a single-byte mutation at every position (xor 0x01, 0x80) of both grams of a signed b64, a signed b2 and an "
-                    "unsigned memo" if tier == "thorough" else "every 7th truncation / mutation position of three two-gram memos")
+                    "unsigned memo; every header / signature offset overwritten with a valid 2-, 3-, 4-byte UTF-8 sequence" if tier == "thorough" else
+                    "every 7th truncation / mutation position of three two-gram memos; code and neck at every offset (other header fields every 5th) "
+                    "overwritten with a valid 2-, 3-, 4-byte UTF-8 sequence")
 
     def generate(self, rng, n, tier):
         for _ in range(n):
@@ -162,6 +183,23 @@ class C22(core.Check):
                     if (gs[0], src) in stream:
                         at = stream.index((gs[0], src)) + 1
                         stream.insert(at, (forged, rng.choice([src, src, rng.randrange(1, 4)])))
+            # a header field overwritten with valid multi-byte UTF-8 (still decodable text, but no code / Base64 digit / id any table knows)
+            for gs, src, code, curt, ki in memos:
+                if rng.random() < 0.5:
+                    g = rng.choice(gs)
+                    q_ = rng.choice(["é", "ß", "中", "€", "😀", "𝄞"]).encode()
+                    fld = rng.choice(["code", "neck", "neck", "mid", "vid", "sig"])
+                    lo, hi = {"code": (0, 4), "neck": (4, 8), "mid": (8, 32), "vid": (32, 76), "sig": (max(0, len(g) - 88), len(g))}[fld]
+                    if curt:
+                        lo, hi = (3 * lo // 4, 3 * hi // 4) if fld != "sig" else (max(0, len(g) - 66), len(g))
+                    pos = rng.randrange(lo, max(lo + 1, min(hi, len(g)) - len(q_) + 1))
+                    if pos + len(q_) <= len(g):
+                        m = bytearray(g); m[pos:pos + len(q_)] = q_
+                        d = bytes(m)
+                        if rng.random() < 0.5 and (g, src) in stream:
+                            stream[stream.index((g, src))] = (d, src)
+                        else:
+                            stream.insert(rng.randrange(0, len(stream) + 1), (d, src))
             # malformed / hostile additions
             for _ in range(rng.choice([1, 1, 2, 3, 5])):
                 gs, src, code, curt, ki = rng.choice(memos)
@@ -274,6 +312,9 @@ class C22(core.Check):
                 pos = rng.randrange(len(ops) + 1)
                 ops = ops[:pos] + [first] + ops[pos:] + later + [("once", []), ("all", [])]
             flavor = rng.choice(["memoer", "memoer", "memoer", "auth", "udp", "uxd"])
+            greedy = all(isinstance(o, tuple) and (o[0] == "keep" or (o[0] in ("all", "svc") and all(g for g, _s in o[1]))) for o in ops)
+            if greedy and rng.random() < 0.6:
+                flavor = "shared"       # two instances sharing the application's reassembly dicts and keep, serviced alternately
             yield ("rx", authic, ops, "gen", flavor)
 
     # ---- running
